@@ -204,6 +204,28 @@ CLAIMED.update({
         note=STORENOTE, technique="Lean 4 theorem (inductive invariant over all event sequences of a small-step model) + differential histories", design="8/C15"),
 })
 
+CLAIMED.update({
+    "C12": dict(
+        text=("Partial. Theorems over every sequence of the store's atomic steps (take a handle, read through a handle, apply a poll with any expiry marks and answers, install a looked-up "
+              "secret, close): every name with a handle stays in the active set with a value and keeps its handle (a read cannot fault, expiry never removes it, Close changes nothing "
+              "that a read depends on); a read returns exactly the bytes currently installed for its name; the read after an apply sees the applied bytes; every value held after a poll "
+              "was held before or is the service's answer for that very name (C11.served_inv). Requests to the service are oracle inputs, never part of a step, so no step waits for "
+              "the network. Not proved, observed under the race detector: that the code's critical sections are these steps, that reads keep completing while requests are held "
+              "blocked, per-reader monotonicity on real schedules, and the absence of data races."),
+        note=STORENOTE + " Data-race freedom and non-blocking are runtime facts sampled by the harness.",
+        technique="Lean 4 theorems (handle invariant preserved by every atomic step, by induction over step sequences) + concurrent readers under the Go race detector",
+        design="8/C12"),
+    "C14": dict(
+        text=("Partial. Theorem lin_by_lock over the model's interleavings (every call = a state-independent pre-step + one atomic locked step): for every schedule of any number of threads "
+              "the final state equals the sequential specification run in the order of the locked steps, each call's result is that of its own locked step, and the order only appends - "
+              "so it is consistent with real time; corollary: two puts of different values never receive the same version. Fact: every exported db.DB method locks (unlock deferred) "
+              "before its first kv access and never unlocks early. Not proved, observed: real schedules - 3-5 goroutines at the DB API and through the HTTP handlers under the race "
+              "detector, each recorded history decided by an exhaustive linearizability search against DB.step incl. the final file; the concurrent audit file must consist of whole records."),
+        note=DBNOTE + " sync.Mutex / Go memory model trusted; data-race freedom is the race detector's verdict on sampled schedules.",
+        technique="Lean 4 theorem (induction over schedules of locked steps) + extracted lock-shape fact + exhaustive linearizability search (in Lean) on recorded concurrent histories",
+        design="8/C14"),
+})
+
 NOT_YET = {}
 
 def manifest():
